@@ -35,6 +35,12 @@ CHECKS = {
                      "while the filter policy changes at every reopen (none / bloom 1,10,20, AltFilters, filter base), every reply "
                      "validated by TLC against KV.tla.",
                 tech="TLA+ contract spec + TLC trace validation under changing filter policies"),
+    "C18": dict(cat="model_checking", ref="5 C18",
+                text="Lifecycle actions of KV.tla (Close, Reopen read-only or not, SetReadOnly, SecondOpen, StorageQuiet) model-checked; "
+                     "seeded lifecycle programs on the real DB (second Open refused, every public method after Close, double Close, "
+                     "read-only open with data only in the journal, SetReadOnly, storage activity counted by the recording storage "
+                     "while read-only/after Close) validated by TLC against them.",
+                tech="TLA+ lifecycle spec + TLC trace validation incl. storage-quiet observations"),
     "C20": dict(cat="model_checking", ref="5 C20",
                 text="The contract spec has no buffers; a hostile client scribbles over every argument buffer after the call returns and "
                      "over every returned value, and checks that exposed iterator slices stay intact until the next move; all replies and "
